@@ -190,6 +190,45 @@ PROPS["C13"] = dict(
     level_note="the ten-slot bound is taken from the statement; IPv6 echo replies are produced inline and are simply all required",
 )
 
+PROPS["C06"] = dict(
+    engine="netsim", level="exploration",
+    quick=dict(runs=48000, workers=16, stall_s=180,
+               variants=["addr", "addr", "addr", "addr", "udp", "udp", "tcpab", "tcpab", "echo", "handshake", "window", "recovery", "demux", "neigh", "hostile", "app"]),
+    thorough=dict(budget_s=900, workers=16, stall_s=300,
+                  variants=["addr", "addr", "addr", "addr", "udp", "udp", "tcpab", "tcpab", "echo", "handshake", "window", "recovery", "demux", "neigh", "hostile", "app"]),
+    rule="one evaluation = one seeded run of one of eleven scenarios, each worker process driving one of them: (addr, a quarter of the workers) one real "
+         "stack with three interfaces - two Ethernet-like ones needing address resolution, each either a simulated NIC or the repository's fd-based "
+         "endpoint over a simulated descriptor, and a point-to-point one - two to three addresses per interface (IPv4 and IPv6) and a route table drawn "
+         "per run (random subset of direct, gateway, overlapping /8-/16-/24 and competing default routes, in administrator order or shuffled); UDP "
+         "datagrams of 0-1400 bytes (odd, even, zero) from unbound, wildcard-bound and specifically bound sockets and active TCP opens to on-link, "
+         "gateway-routed, unroutable and IPv6 destinations, inbound echo requests, SYNs to closed and listening ports and stray ACKs from on-link hosts "
+         "and from far hosts whose frames come from the gateway's link address; neighbours answer every ARP request/neighbour solicitation with a link "
+         "address of their own; clock advances past the 60 s neighbour-entry lifetime; (the other ten) the scenarios of C01/C02 (two real stacks, lossy "
+         "wire), C03, C04, C05, C07, C09, C11, C12, C13 and C20 run unchanged with their own oracles muted, for the frames they make the stack emit; "
+         "in every scenario every emitted frame is decoded by the independent RFC-derived codec. non-trivial = at least one frame was decoded and "
+         "judged; distinct = distinct event-log hash",
+    expected_probes=["frames_decoded", "source_address_checked", "udp_frames_checked", "answers_checked", "syn_frames_checked", "destination_mac_checked",
+                     "reply_mac_checked", "sent_through_gateway", "sent_on_link", "no_route", "resolution_requests_answered", "neighbour_solicitations_answered",
+                     "fd_based_links", "ethernet_frames_written"],
+    real=NET_REAL + ["protocol/link/fdbased (endpoint.go: Ethernet framing, receive scatter, dispatch loop)", "protocol/link/rawfile (through the verif seam)",
+                     "protocol/link/loopback (C20 scenario)"],
+    stubs=NET_STUBS + PEER_STUB + ["file descriptor of the fd-based endpoint: write/writev/readv are served by the simulator through the rawfile seam"],
+    assumptions=NET_ASSUME + [
+        "channel links (protocol/link/channel) are not driven: the simulated NIC implements the same LinkEndpoint interface and records the same arguments",
+        "for a socket bound to a specific local address the reference takes the first matching route entry whose interface owns that address",
+        "answers (echo reply, SYN-ACK, reset) are required to go back through the interface and to the link address the answered packet came from",
+        "the stack does not fragment on output and no property bounds a frame by the link MTU: frames larger than the MTU are counted, not judged"],
+    hang_is_violation=True,
+    level_text="seeded search; every frame leaving a stack in any scenario must decode under the independent codec (length fields, IPv4 header checksum, "
+               "ICMP/UDP/TCP checksums with pseudo-header, TCP option syntax and padding, different IP identifiers on consecutive large packets of a flow) "
+               "and carry a source address assigned to the emitting interface; in the addressing scenario the emitting interface, source, destination, "
+               "ports and - on Ethernet links, read from the Ethernet header the real fd-based endpoint wrote - both link addresses are compared with a "
+               "reference computed from the statement (first matching route entry; next hop = gateway or destination); evidence, not proof",
+    level_note="violations of the other properties observed while their scenarios run under C06 are counted (reach probe other_property_*) and not reported here",
+    technique="deterministic simulation: seeded histories over real stacks on simulated links and a simulated file descriptor, an RFC-derived independent "
+              "decoder as frame oracle, a route-table reference model for addressing",
+)
+
 PROPS["C03"] = dict(
     engine="netsim", level="exploration",
     quick=dict(runs=32000, workers=16),
